@@ -31,19 +31,20 @@ PROP = "C11"
 TRUSTED = [
     "Coq 8.16.1 kernel + vm_compute (no native_compute)",
     "Coq extraction (ExtrOcamlBasic only) + OCaml 4.13 for the model side of the correspondence (ocaml/C11/driver.ml); cross-checked against vm_compute of the same terms on a sample every run",
-    "hand-written model coq/C11/Model_C11.v of core/string/src/{str,lib,iter,code_point,builder,common}.rs, tied by correspondence only on the inputs run",
+    "hand-written model coq/C11/Model_C11.v + ModelD_C11.v of core/string/src/{str,lib,iter,code_point,builder,common,display}.rs; its arm structure is pinned to the sources by tools/gen_c11.py (token fingerprints per representation arm, theorem arm_table_pinned), its behaviour is tied by correspondence on the inputs run",
+    "tools/gen_c11.py (tokenizer, item/arm splitter, sha256 fingerprints); comments/attributes/whitespace are not fingerprinted",
     "Rust std semantics as modelled: <[T]>::eq/cmp (length + memcmp), Iterator::eq/cmp/zip/all/position/rposition/skip, <[T]>::windows/get, char::decode_utf16, str::encode_utf16/as_bytes, char::from_u32",
     "modelled, not verified: allocation/refcount/unsafe pointer plumbing of SequenceString/SliceString/StaticString/JsStringBuilder (only the JsStr view they expose), FxHashMap lookup of the static table (as Hash+Eq), usize overflow",
     "harness/src/bin/strops.rs (public-API observation, native Vec<u16> oracle, catch_unwind), Python driver and generator gen/c11_gen.py",
 ]
 
 U_KEYS = ["len", "empty", "vec", "iter", "hash", "get1", "get2", "cpa1", "cpa2", "cps", "has", "trim", "trim.r", "trims", "trims.r",
-          "trime", "trime.r", "slice", "slice.r", "sget", "sget.r", "jget", "jget.r", "std", "lossy"]
+          "trime", "trime.r", "slice", "slice.r", "sget", "sget.r", "jget", "jget.r", "std", "lossy", "esc", "surr", "mapid"]
 U_ALIAS = {"jlen": "len", "into_iter": "iter", "jhash": "hash", "jcps": "cps"}
 B_KEYS = ["eq", "equ", "eqr", "cmp", "idx", "sw", "ew", "cat", "cat.r"]
 B_ALIAS = {"eqj": "eq", "eqx": "eq", "equj": "equ", "pcmp": "cmp"}
 E_FIELDS = ["eqs", "eqs_j", "eqs_rev", "eqs_ref"]
-NO_MODEL = {"sip", "esc"}          # compared between constructors (and `esc` with the native oracle) only
+NO_MODEL = {"sip", "num", "jnum"}          # compared between constructors (and `esc` with the native oracle) only
 UGROUPS = ["L", "U"]
 BGROUPS = ["LL", "LU", "UL", "UU"]
 
@@ -457,11 +458,34 @@ def main():
         now = time.time()
         timing[name] = round(now - tph, 1)
         tph = now
-    # 1-3. proofs + gates
+    # 1. translator: the arm table of the modelled functions, regenerated from /repo on every run (coq/Gen/StrArms.v);
+    #    Props_C11.arm_table_pinned proves it equal to the table the model was written against (coq/C11/Arms_C11.v)
+    import gen_c11
+    arm_diff = None
+    try:
+        text, info = gen_c11.generate(vlib.REPO)
+        run.cov["translator"] = {"tool": "tools/gen_c11.py", "operations": info["operations"], "arm_entries": info["entries"]}
+        try:
+            expected = gen_c11.parse_table(open(os.path.join(vlib.COQ, "C11", "Arms_C11.v")).read().split("Definition modelled_as")[0])
+            arm_diff = gen_c11.diff(expected, info["rows"])
+        except OSError:
+            pass
+    except Exception as e:      # Unsupported or anything else: a table holding only the refusal, which cannot equal the pinned one
+        text = gen_c11.refusal("%s: %s" % (type(e).__name__, e))
+        arm_diff = ["translator refused: %s: %s" % (type(e).__name__, e)]
+        run.cov["translator"] = {"tool": "tools/gen_c11.py", "refused": arm_diff[0]}
+    vlib.write_if_changed(os.path.join(vlib.COQ, "Gen", "StrArms.v"), text)
+    if arm_diff:
+        run.cov["translator"]["arm_table_differences"] = arm_diff[:40]
+    # 2-3. proofs + gates
     pr = vlib.proof_stage(PROP, ["Common", "C11"], "C11/Props_C11.v", extra_targets=["C11/Eval_C11.vo", "C11/Extract_C11.vo"])
     run.set_proof(pr, TRUSTED)
     if not pr["ok"]:
         broken = pr["broken"]
+        if arm_diff:
+            broken = dict(broken)
+            broken["arm_table"] = {"what": "a modelled function of boa_string changed (or the translator refused): the model must be re-read against it",
+                                   "differences": arm_diff[:40]}
     # harness
     binpath = strops_bin(run)
     if binpath is None:
